@@ -1005,8 +1005,22 @@ const AUTHOR_BYTES: std::ops::Range<usize> = 32..64;
 const KEY_BYTES: std::ops::RangeFrom<usize> = 64..;
 
 /// The identifier of a record.
-#[derive(Clone, Serialize, Deserialize, PartialEq, Eq, PartialOrd, Ord)]
+#[derive(Clone, Serialize, PartialEq, Eq, PartialOrd, Ord)]
 pub struct RecordIdentifier(Bytes);
+
+impl<'de> Deserialize<'de> for RecordIdentifier {
+    fn deserialize<D: serde::Deserializer<'de>>(deserializer: D) -> Result<Self, D::Error> {
+        // The accessors slice the namespace and author out of the first 64 bytes, so a shorter
+        // identifier (which a remote peer can send) must not be constructed.
+        let bytes = Bytes::deserialize(deserializer)?;
+        if bytes.len() < KEY_BYTES.start {
+            return Err(serde::de::Error::custom(
+                "record identifier must be at least 64 bytes",
+            ));
+        }
+        Ok(Self(bytes))
+    }
+}
 
 impl Default for RecordIdentifier {
     fn default() -> Self {
